@@ -43,16 +43,15 @@ class Mutex {
     //! 请求资源，注意：只能是协程调用
     //! 不建议直接使用，优先使用 Mutex::Locker 替代
     bool lock() {
-        if (!hold_token_.isNull()) {      //! 如果没有资源，则等待
-            if (hold_token_.equal(sch_.getToken())) //! 如果就是自己占用的，就直接返回
-                return true;
+        if (!hold_token_.isNull() && hold_token_.equal(sch_.getToken())) //! 如果就是自己占用的，就直接返回
+            return true;
 
+        //! 如果没有资源，则等待。每次等待前都要重新排队，因为被唤醒后锁可能已被别人抢走
+        while (!hold_token_.isNull()) {
             wait_tokens_.push(sch_.getToken());
-            do {
-                sch_.wait();
-                if (sch_.isCanceled())
-                    return false;
-            } while (!hold_token_.isNull());
+            sch_.wait();
+            if (sch_.isCanceled())
+                return false;
         }
 
         hold_token_ = sch_.getToken();
@@ -67,10 +66,12 @@ class Mutex {
 
         hold_token_.reset();
 
-        if (!wait_tokens_.empty()) {
+        //! 唤醒一个等待者（跳过已失效的token）
+        while (!wait_tokens_.empty()) {
             auto t = wait_tokens_.front();
             wait_tokens_.pop();
-            sch_.resume(t);
+            if (sch_.resume(t))
+                break;
         }
     }
 
